@@ -76,7 +76,8 @@ func varsCmd(args []string) error {
 	if *tier == "thorough" {
 		n = 30000
 	}
-	namePool := []string{"FOO", "BAR", "QUX", "USER", "LANG", "MY_VAR", "E_X", "lower", "HOME"}
+	// the last few look like method names of Go types (a template looks a field name up as a method before it tries the map)
+	namePool := []string{"FOO", "BAR", "QUX", "USER", "LANG", "MY_VAR", "E_X", "lower", "HOME", "Environ", "String", "Len", "Keys", "Error", "Get"}
 	// printable ASCII without the double quote (ends the spok string), the single quote (the commands quote with it) and '#'
 	valAlpha := "abcXYZ019 _-=:.,/$${}{}()[]<>|&;*?!~%^+@\\`"
 	litAlpha := "abcdefgh0123 _-=:.,/"
